@@ -12,6 +12,7 @@ Model: `Model/PktParse.lean` (newPacket / parseV4 / parseV6 / IPv6FindUpperProto
 -/
 import Nebula.Lemmas.PktParse
 import Nebula.Lemmas.PktParseComplete
+import Nebula.Lemmas.PktParsePorts
 
 namespace Nebula.Props.C20
 open Nebula.Pkt Nebula.Spec.IP Nebula.Lemmas.PktParse
@@ -119,6 +120,54 @@ theorem beyond_walk_limit_rejected (d : List UInt8) (incoming : Bool) (sp : Pkt)
   | err e => exact ⟨e, rfl⟩
   | panic => exact absurd hr (newPacket_no_panic d incoming)
 
+/-- Every reported port is *found in the packet* (`Spec.IP.portsFromPacket`, the ports clause with no case
+left free): for all byte strings and both directions, whenever the packet is accepted the independent
+parser parses the same bytes and the reported (localPort, remotePort) are — non-first fragment: 0/0;
+TCP/UDP: the oriented first two 16-bit words of the upper-layer header; ICMP/ICMPv6: local 0, remote the
+word at upper-layer offset 4 (for a type without an identifier alternatively 0); any other protocol: 0/0
+or the oriented first four upper-layer bytes. So no reported port can be anything but a function of
+(bytes, direction): a value left over in the reused ParsedPacket is not acceptable. -/
+theorem model_ports_from_packet (d : List UInt8) (incoming : Bool) (fp : Parsed)
+    (h : newPacket d incoming = .ok fp) :
+    ∃ sp, parse d = some sp ∧ portsFromPacket sp incoming (toClass fp) = true := by
+  obtain ⟨sp, h1, _, h3⟩ := newPacket_agree_strict d incoming fp h
+  exact ⟨sp, h1, h3⟩
+
+/-- `agree` and `model_ports_from_packet` about the same parse: the oracle the driver applies to the
+implementation's answers (`acceptableStrict = acceptable && portsFromPacket`) holds of the model's. -/
+theorem agree_strict (d : List UInt8) (incoming : Bool) (fp : Parsed) (h : newPacket d incoming = .ok fp) :
+    ∃ sp, parse d = some sp ∧ acceptableStrict sp incoming (toClass fp) = true := by
+  obtain ⟨sp, h1, h2, h3⟩ := newPacket_agree_strict d incoming fp h
+  exact ⟨sp, h1, by simp [acceptableStrict, h2, h3]⟩
+
+/-- The strict ports clause only adds demands: it implies the ports clause of `acceptable`. -/
+theorem ports_from_packet_strengthens (p : Pkt) (incoming : Bool) (c : Class)
+    (h : portsFromPacket p incoming c = true) : portsOK p incoming c = true :=
+  portsFromPacket_portsOK p incoming c h
+
+/-- Where the strict clause leaves a choice it is between two readings of the packet, nothing else: two
+classifications of the same packet and direction that both satisfy it and agree on whether any port is
+reported at all (both 0/0 or both not) report the same ports. -/
+theorem ports_from_packet_determined (p : Pkt) (incoming : Bool) (c1 c2 : Class)
+    (h1 : portsFromPacket p incoming c1 = true) (h2 : portsFromPacket p incoming c2 = true)
+    (hz : (c1.localPort = 0 ∧ c1.remotePort = 0) ↔ (c2.localPort = 0 ∧ c2.remotePort = 0)) :
+    c1.localPort = c2.localPort ∧ c1.remotePort = c2.remotePort := by
+  simp only [portsFromPacket, firstFourOriented, Pkt.icmpTypeHasId] at h1 h2
+  by_cases hnf : p.nonFirstFrag = true
+  · simp only [hnf, if_true, Bool.and_eq_true, beq_iff_eq] at h1 h2; omega
+  · simp only [hnf, Bool.false_eq_true, if_false] at h1 h2
+    by_cases hp : p.proto = 6 ∨ p.proto = 17
+    · cases incoming <;>
+        simp only [hp, Bool.and_eq_true, beq_iff_eq, decide_eq_true_eq, if_true, Bool.false_eq_true, if_false] at h1 h2 <;>
+        omega
+    · by_cases hi : p.isIcmp = true
+      · simp only [hp, hi, if_true, if_false, Bool.and_eq_true, Bool.or_eq_true, beq_iff_eq, decide_eq_true_eq] at h1 h2
+        omega
+      · cases incoming <;>
+          simp only [hp, hi, Bool.and_eq_true, Bool.or_eq_true, beq_iff_eq, decide_eq_true_eq, if_true,
+            Bool.false_eq_true, if_false] at h1 h2 <;>
+          omega
+
 /-- the walk limit the theorems speak about is the constant of the current source -/
 example : maxIPv6ExtHeaders = 8 := by decide
 
@@ -157,5 +206,41 @@ example : newPacket ([0x46, 0, 0, 32, 0, 0, 0, 0, 64, 6, 0, 0, 10, 0, 0, 1, 10, 
                       0x00, 0x50, 0x1f, 0x90, 0, 0, 0, 0]) false =
     .ok { localAddr := [10, 0, 0, 1], remoteAddr := [10, 0, 0, 2], localPort := 80, remotePort := 8080, proto := 6,
           fragment := false, ipHdrLen := 24, fragAny := false } := by decide
+
+-- ports found in the packet (`model_ports_from_packet`), on the packets of the seeded change C20-4:
+/-- IPv6, upper protocol `nh` (no extension headers), eight upper-layer bytes `01 02 03 04 05 06 07 08` -/
+def v6other (nh : UInt8) : List UInt8 :=
+  [0x60, 0, 0, 0, 0, 8, nh, 64] ++ List.replicate 15 0 ++ [1] ++ List.replicate 15 0 ++ [2] ++ [1, 2, 3, 4, 5, 6, 7, 8]
+/-- a classification of `v6other nh`, incoming, with the given ports -/
+def v6otherClass (nh lp rp : Nat) : Class :=
+  { localAddr := List.replicate 15 0 ++ [2], remoteAddr := List.replicate 15 0 ++ [1], localPort := lp,
+    remotePort := rp, proto := nh, fragment := false, ipHdrLen := 40, fragAny := false }
+
+-- SCTP over IPv6: the model reports 0/0 …
+example : (match newPacket (v6other 132) true with | .ok fp => some (toClass fp) | _ => none) = some (v6otherClass 132 0 0) := by
+  decide
+-- … the strict oracle accepts 0/0 and the oriented first four bytes (0x0304 local, 0x0102 remote), and
+-- refuses the ports a reused ParsedPacket held before (0xdead / 0xbeef), which `acceptable` alone lets pass
+example : (parse (v6other 132)).map (fun p =>
+      (acceptableStrict p true (v6otherClass 132 0 0), acceptableStrict p true (v6otherClass 132 0x0304 0x0102),
+       acceptable p true (v6otherClass 132 0xdead 0xbeef), portsFromPacket p true (v6otherClass 132 0xdead 0xbeef),
+       portsFromPacket p true (v6otherClass 132 0x0102 0x0304)))
+    = some (true, true, true, false, false) := by decide
+-- ICMPv6 without an identifier (type 1, destination unreachable): remote port 0 or the word at offset 4, nothing else
+example : (parse (v6other 58)).map (fun p =>
+      (portsFromPacket p true (v6otherClass 58 0 0), portsFromPacket p true (v6otherClass 58 0 0x0506),
+       acceptable p true (v6otherClass 58 0 0xbeef), portsFromPacket p true (v6otherClass 58 0 0xbeef)))
+    = some (true, true, true, false) := by decide
+-- IPv4 GRE (47), outgoing: the model reports the first four payload bytes, oriented; 0/0 would pass too, stale ports not
+example : newPacket ([0x45, 0, 0, 24, 0, 0, 0, 0, 64, 47, 0, 0, 10, 0, 0, 1, 10, 0, 0, 2, 0xaa, 0xbb, 0xcc, 0xdd]) false =
+    .ok { localAddr := [10, 0, 0, 1], remoteAddr := [10, 0, 0, 2], localPort := 0xaabb, remotePort := 0xccdd, proto := 47,
+          fragment := false, ipHdrLen := 20, fragAny := false } := by decide
+def greClass (lp rp : Nat) : Class :=
+  { localAddr := [10, 0, 0, 1], remoteAddr := [10, 0, 0, 2], localPort := lp, remotePort := rp,
+    proto := 47, fragment := false, ipHdrLen := 20, fragAny := false }
+example : (parse ([0x45, 0, 0, 24, 0, 0, 0, 0, 64, 47, 0, 0, 10, 0, 0, 1, 10, 0, 0, 2, 0xaa, 0xbb, 0xcc, 0xdd])).map (fun p =>
+      (acceptableStrict p false (greClass 0xaabb 0xccdd), acceptableStrict p false (greClass 0 0),
+       acceptableStrict p false (greClass 0xdead 0xbeef)))
+    = some (true, true, false) := by decide
 
 end Nebula.Props.C20
